@@ -222,6 +222,12 @@ fn resolve_once(
                 &substs,
                 query)?;
 
+            // An empty argument can leave blanks at the end,
+            // which a line taken from the source never has
+            let new_excerpt = new_excerpt
+                .trim_end_matches(syntax::is_whitespace)
+                .to_string();
+
             
             // Run the matcher algorithm
             let mut matches = asm::matcher::match_instr(
